@@ -1170,6 +1170,8 @@ class Interp:
         if isinstance(v, Inst):
             if a in v.attrs:
                 return v.attrs[a]
+            if a == '__dict__' and v.native is None:
+                return self.models.builtin(self, 'vars', [v], {}, n)
             if v.cls is not None:
                 r = self.class_attr(v.cls, a, v)
                 if r is not None:
